@@ -14,7 +14,7 @@
 //      views describe this call only; after a successful call the error string is empty (implied by 2);
 //  (4) after a failed call LoadDatabaseString(small db) returns 0 with an empty error string and a fixed
 //      probe input reproduces bitwise (rc, error, warning, selected-output and output strings) what a fresh
-//      instance produced at start-up.  Two probes: a light one (solution + phases, ~3 ms under ASan) and a
+//      instance produced at start-up.  Two probes: a light one (one initial solution + selected output, ~1 ms under ASan) and a
 //      heavy one (exchange, surface, reaction steps, output string; ~20 ms).  Which one is used is a function
 //      of the input bytes (heavy for 1 input hash in 8; C08_PROBE=heavy|light overrides), so that a saved
 //      input reproduces alone.
@@ -55,7 +55,7 @@ public:
 
 static volatile int g_inlib = 0;              // > 0 while a library call is on the stack
 static std::map<std::string, unsigned long long> g_cnt;
-static std::string g_stats_path, g_scratch, g_verif, g_db_text;
+static std::string g_stats_path, g_scratch, g_verif, g_db_text, g_db_plain;
 static std::unordered_set<uint64_t> g_nt;     // hashes of distinct non-trivial inputs
 static const size_t NT_CAP = 2000000;
 static FILE *g_hash_file = 0;                 // <stats>.h: one line per new non-trivial input hash (appended)
@@ -82,8 +82,7 @@ static const char PROBE[] =
 static const char PROBE_LIGHT[] =
 	"TITLE c08 light probe\n"
 	"SOLUTION 1\n pH 7.5\n temp 20\n Na 12\n Cl 10 charge\n Ca 2\n C(4) 3\n S(6) 1\n Fe 0.02\n"
-	"EQUILIBRIUM_PHASES 1\n Calcite 0 0.01\n Goethite 0 0\n"
-	"SELECTED_OUTPUT 1\n -reset false\n -high_precision true\n -pH true\n -pe true\n -totals Ca C(4) Fe S(6)\n -si Calcite Gypsum CO2(g)\n"
+	"SELECTED_OUTPUT 1\n -reset false\n -high_precision true\n -pH true\n -pe true\n -totals Ca C(4) Fe S(6)\n -molalities CaCO3 FeOH+\n -si Calcite Gypsum CO2(g) Goethite\n"
 	"USER_PUNCH 1\n -headings mu chg\n 10 PUNCH MU, CHARGE_BALANCE\n"
 	"END\n";
 
@@ -229,6 +228,23 @@ template <class F> static void for_each_first_token(const std::string &text, F f
 	}
 }
 
+// all blank-separated tokens of every logical line, first token lower case
+template <class F> static void for_each_line(const std::string &text, F f)
+{
+	size_t i = 0, n = text.size();
+	while (i < n) {
+		std::vector<std::string> toks;
+		while (i < n && text[i] != '\n' && text[i] != ';') {
+			while (i < n && (text[i] == ' ' || text[i] == '\t' || text[i] == '\r')) i++;
+			size_t a = i;
+			while (i < n && !(text[i] == ' ' || text[i] == '\t' || text[i] == '\r' || text[i] == '\n' || text[i] == ';')) i++;
+			if (i > a) toks.push_back(text.substr(a, i - a));
+		}
+		i++;
+		if (!toks.empty()) { toks[0] = lower(toks[0]); f(toks); }
+	}
+}
+
 static inline bool is_prefix_of(const std::string &t, const char *full) { return !t.empty() && strncmp(t.c_str(), full, t.size()) == 0 && t.size() <= strlen(full); }
 
 static const char *known_trigger(const std::string &raw)
@@ -261,8 +277,12 @@ static const char *known_trigger(const std::string &raw)
 	//    state dump of set_and_run_wrapper after a convergence failure)
 	static const char *SS_P_OPTS[] = {"activity_coefficients", "distribution_coefficients", "miscibility_gap", "spinodal_gap",
 	                                  "critical_point", "alyotropic_point", "thompson", "margules"};
+	// F6 read.cpp:667/700/4041/4068/5858/5891/6536/6569/9826: -add_logk without a name (or -add_constant without a
+	//    number) leaves an add_logk entry whose name is NULL; tidy.cpp:593 builds a std::string from it ->
+	//    std::logic_error escapes through Run*/LoadDatabase*
 	int kw = Keywords::KEY_NONE;
-	for_each_first_token(text, [&](const std::string &tok) {
+	for_each_line(text, [&](const std::vector<std::string> &toks) {
+		const std::string &tok = toks[0];
 		int k = Keywords::Keyword_search(tok);
 		if (k != Keywords::KEY_NONE) { kw = k; return; }
 		if (kw == Keywords::KEY_SOLID_SOLUTIONS) {
@@ -270,18 +290,67 @@ static const char *known_trigger(const std::string &raw)
 				if (tok[0] == '-' ? is_prefix_of(tok.substr(1), o) : tok == o) hit = "ss_parameter_options_dump";
 			}
 		}
+		if (kw == Keywords::KEY_SOLUTION_SPECIES || kw == Keywords::KEY_PHASES || kw == Keywords::KEY_EXCHANGE_SPECIES ||
+		    kw == Keywords::KEY_SURFACE_SPECIES || kw == Keywords::KEY_NAMED_EXPRESSIONS) {
+			std::string o = tok[0] == '-' ? tok.substr(1) : tok;
+			bool dash = tok[0] == '-';
+			bool logk = dash ? (o.size() >= 2 && (is_prefix_of(o, "add_logk") || is_prefix_of(o, "add_log_k"))) : (o == "add_logk" || o == "add_log_k");
+			bool cons = dash ? (o.size() >= 2 && is_prefix_of(o, "add_constant")) : o == "add_constant";
+			if (logk && toks.size() < 2) hit = "add_logk_without_name";
+			if (cons) {
+				char *end = 0;
+				if (toks.size() < 2) hit = "add_logk_without_name";
+				else { strtod(toks[1].c_str(), &end); if (end == toks[1].c_str()) hit = "add_logk_without_name"; }
+			}
+		}
 	});
 	return hit;
+}
+
+// F7 tidy.cpp:431-436: a database that defines H+ (or H3O+) but not e- reports "e- not defined" and then
+//    dereferences the NULL species pointer (SIGSEGV in the release build).  Database texts only.
+static const char *known_trigger_db(const std::string &text)
+{
+	if (g_no_known_filter) return 0;
+	bool has_h = false, has_e = false;
+	for (size_t i = 0; i < text.size(); i++) {
+		if (text[i] != '=') continue;
+		size_t j = i + 1;
+		while (j < text.size() && (text[j] == ' ' || text[j] == '\t')) j++;
+		size_t a = j;
+		while (j < text.size() && !(text[j] == ' ' || text[j] == '\t' || text[j] == '\n' || text[j] == '\r' || text[j] == ';' || text[j] == '#')) j++;
+		std::string t = text.substr(a, j - a);
+		if (t == "H+" || t == "H3O+") has_h = true;
+		if (t == "e-") has_e = true;
+	}
+	return has_h && !has_e ? "database_without_electron" : 0;
 }
 
 // F2 Phreeqc::unnumbered_solutions (SOLUTION_SPREAD rows without a number) is cleared only by tidy_solutions: when
 //    a run stops with input errors before that, the parked solutions survive clean_up()/LoadDatabase and the next
 //    run uses them with dangling string pointers (use-after-free, SIGSEGV in the release build).  The trigger is
 //    recognised from the engine state after a failed call; the instance is then replaced instead of reloaded.
-static bool known_state_unnumbered(FI *I)
+// F4 the seven Rxn_<entity>_mix_map members (SOLUTION_MIX, EXCHANGE_MIX, ...) are emptied only by do_mixes() at the
+//    end of a simulation; clean_up() forgets them, so after a run that stopped early a *valid* LoadDatabase fails
+//    ("Solution n not found in mix_cxxSolutions") or mixes stale entities.  Recognised from the state as well.
+static const char *known_state_after_failure(FI *I)
 {
-	if (g_no_known_filter) return false;
-	return !I->P()->unnumbered_solutions.empty();
+	if (g_no_known_filter) return 0;
+	Phreeqc *P = I->P();
+	if (!P->unnumbered_solutions.empty()) return "unnumbered_solutions_survive_reload";
+	if (!P->Rxn_solution_mix_map.empty() || !P->Rxn_exchange_mix_map.empty() || !P->Rxn_gas_phase_mix_map.empty() || !P->Rxn_kinetics_mix_map.empty() ||
+	    !P->Rxn_pp_assemblage_mix_map.empty() || !P->Rxn_ss_assemblage_mix_map.empty() || !P->Rxn_surface_mix_map.empty()) return "entity_mix_maps_survive_reload";
+	return 0;
+}
+
+// F5 read.cpp:106-112 keeps a pointer into sformatf's buffer (error_string) across calls that may realloc it (the
+//    buffer restarts at 256 bytes with every LoadDatabase): heap-use-after-free when a line longer than the buffer
+//    is echoed while lines without a keyword are skipped.  Excluded by construction: the harness' database starts
+//    with a DATABASE line (ignored inside a database) carrying a 16 KB comment, which grows the buffer beyond every input length before the input is read (and the
+//    same line is put in front of fuzzed database texts).  Strict replays use the plain texts.
+static std::string pregrow_line()
+{
+	return g_no_known_filter ? std::string() : "DATABASE #" + std::string(16300, 'x') + "\n";
 }
 
 // ---- UBSan reports (the asan variant is built with -fsanitize-recover=undefined, so the decision is made here):
@@ -485,10 +554,12 @@ static void init_common()
 	std::string dbp = (e = getenv("C08_DB")) && *e ? e : g_verif + "/corpus/small.dat";
 	g_db_text = slurp(dbp);
 	if (g_db_text.size() < 100) harness_error("cannot read small database " + dbp);
+	g_db_plain = g_db_text;
 	if ((e = getenv("C08_STATS")) && *e) g_stats_path = e;
 	if (!g_stats_path.empty()) g_hash_file = fopen((g_stats_path + ".h").c_str(), "a");
 	if ((e = getenv("C08_NO_KNOWN_FILTER")) && *e == '1') g_no_known_filter = true;
 	if ((e = getenv("C08_UB_COLLECT")) && *e == '1') g_ub_collect = true;
+	g_db_text = pregrow_line() + g_db_text;
 	if ((e = getenv("C08_PROBE")) && *e) g_probe_mode = strcmp(e, "heavy") == 0 ? 1 : strcmp(e, "light") == 0 ? 2 : 0;
 	if ((e = getenv("C08_SCRATCH")) && *e) g_scratch = e;
 	else {
@@ -524,6 +595,7 @@ static void init_common()
 		int rc = guarded("LoadDatabaseString(small)", [&] { return X->LoadDatabaseString(g_db_text.c_str()); });
 		if (rc != 0) harness_error(std::string("small database does not load: ") + X->GetErrorString());
 	}
+	if (!g_no_known_filter && A->P()->sformatf_buffer_size < 16384) harness_error("the long comment line did not grow the format buffer (F5 exclusion by construction is not in effect)");
 	g_ref = run_probe(A, true);
 	Ref rb = run_probe(B, true);
 	if (g_ref.rc != 0) harness_error("probe input fails on a fresh instance: " + g_ref.err);
